@@ -80,6 +80,42 @@ def result(params):
     return {"violated": bool(bad), "problems": bad}
 
 
+def todict(params):
+    """calculate_all + to_dict against attribute-by-attribute reads of an identical result."""
+    from panoptica.panoptica_result import PanopticaResult
+    from panoptica.utils.edge_case_handling import EdgeCaseHandler
+    from panoptica.metrics import Metric
+    tp, npred, nref = params["tp"], params["npred"], params["nref"]
+    lists = {m: [float(Fraction(x)) for x in L] for m, L in params["lists"].items()}
+    mkres = lambda: PanopticaResult(reference_arr=None, prediction_arr=None, num_pred_instances=npred, num_ref_instances=nref, tp=tp,
+                                    list_metrics={Metric[m]: list(L) for m, L in lists.items()}, edge_case_handler=EdgeCaseHandler())
+    bad = []
+    try:
+        res, twin = mkres(), mkres()
+        direct = {}
+        for k in list(twin._evaluation_metrics.keys()):
+            try:
+                direct[k] = getattr(twin, k)
+            except Exception as e:
+                direct[k] = e
+        res.calculate_all()
+        d = res.to_dict()
+        for k, v in direct.items():
+            if isinstance(v, Exception):
+                if k in d:
+                    bad.append(f"{k} exported although its calculation raises")
+            elif k not in d:
+                bad.append(f"{k} missing from to_dict although it is computable ({v})")
+            elif not (close(d[k], v) or d[k] == v):
+                bad.append(f"{k}: exported {d[k]} but the attribute is {v}")
+        for k in d:
+            if k not in direct:
+                bad.append(f"unknown key {k}")
+    except Exception as e:
+        bad = [f"raised {type(e).__name__}: {e}"[:200]]
+    return {"violated": bool(bad), "problems": bad[:8]}
+
+
 def eval(params):
     """evaluate_matched_instance with _evaluate_instance stubbed by its contract."""
     serial_pools()
